@@ -125,7 +125,39 @@ def corpus():
 
 # ------------------------------------------------------------------ reference
 TOKEN = re.compile(r"<[^>]*>|[^<]+")
-SPAN = re.compile(r"""^<span\s+style\s*=\s*["']\s*color\s*:\s*([^;"']*?)\s*;?\s*["']\s*>$""", re.I)
+SPAN_TAG = re.compile(r"^<span(\s[^>]*)?>$", re.I)
+STYLE_ATTR = re.compile(r"""\bstyle\s*=\s*(?:"([^"]*)"|'([^']*)')""", re.I)
+
+
+class _M(object):
+    def __init__(self, colour):
+        self.colour = colour
+
+    def group(self, i):
+        return self.colour
+
+
+class _Span(object):
+    """matches an opening <span ...> whose style attribute (anywhere among its attributes, either
+    quoting) declares a colour (anywhere among its declarations)"""
+
+    @staticmethod
+    def match(tag):
+        if not SPAN_TAG.match(tag):
+            return None
+        m = STYLE_ATTR.search(tag)
+        if not m:
+            return None
+        style = m.group(1) if m.group(1) is not None else m.group(2)
+        for decl in style.split(";"):
+            if ":" in decl:
+                k, v = decl.split(":", 1)
+                if k.strip().lower() == "color":
+                    return _M(v.strip())
+        return None
+
+
+SPAN = _Span
 
 
 def parse_render(html):
